@@ -257,3 +257,26 @@ def rle(choices):
         out.append("%dx%d" % (choices[i], j - i))
         i = j
     return ",".join(out)
+
+
+def replay_schedule(scn, choices, judge):
+    """Re-run exactly one schedule twice without the exploration loop; transcripts must agree; prints them and returns the violations."""
+    runs = []
+    for _ in range(2):
+        x = run(scn, list(choices), keep_trace=True)
+        try:
+            tr = {cn: [(k, p if isinstance(p, (str, type(None), bool)) else str(p)) for k, _, p in c.transcript] for cn, c in x.world.conns.items()}
+            viol = []
+            judge(x, viol)
+            runs.append((tr, x.trace, viol))
+        finally:
+            x.world.close()
+    if runs[0][0] != runs[1][0]:
+        raise HarnessError("replaying the same schedule twice gave different transcripts")
+    tr, trace, viol = runs[0]
+    print("schedule:", [t for t in trace if t != "run"])
+    for cn in sorted(tr):
+        for k, p in tr[cn]:
+            if k in ("recv", "send", "drop", "close"):
+                print("  %-4s %-5s %s" % (cn, k, (p or "")[:140] if isinstance(p, str) else p))
+    return viol
